@@ -9,7 +9,7 @@ from .. import kernel as K
 from .. import monitor as M
 from .. import core, gen
 from ..lib import load
-from ..poly import Poly, BranchOnValue
+from ..poly import Poly, Poly2, BranchOnValue
 
 ID = "C18"
 SENTINEL = True      # prelude cases (factory objects used and moved) are judged by the global-state sentinel here
@@ -24,7 +24,7 @@ RULE = ("(1) shadow-value execution: indeterminates of a polynomial ring over Q 
         "distinct by content hash")
 TYPES = ("int", "Fraction", "Decimal", "float", "user")
 RANK = {"user": 0, "Fraction": 1, "Decimal": 2, "float": 3, "int": 4}
-PYT = {"int": int, "Fraction": F, "Decimal": Decimal, "float": float, "user": Poly}
+PYT = {"int": int, "Fraction": F, "Decimal": Decimal, "float": float, "user": Poly, "user2": Poly2}
 SHADOW_OPS = ("add", "sub", "mul-scalar", "rmul-scalar", "neg", "dot", "cross", "from-points", "pv", "point-move",
               "id-a.(axb)=0", "id-axb=-(bxa)", "id-lagrange", "index", "vector-from-list")
 REQUIRED_FUNCS = ("Vector.__add__", "Vector.__sub__", "Vector.__mul__", "Vector.__rmul__", "Vector.__neg__", "Vector.cross",
@@ -36,7 +36,7 @@ def required_cells(tier):
     req = {}
     for op in SHADOW_OPS:
         req["shadow:" + op] = 1
-    for t in TYPES:
+    for t in TYPES + ("user2",):
         req["exact:" + t] = 100
     req["promotion"] = 125
     req["promotion:non-dyadic-float"] = 30
@@ -67,7 +67,7 @@ def cases(rng, budget, widx, nworkers, tier):
                    "vals": [[rng.randint(-9, 9) for _ in range(3)] for _ in range(2)], "s": rng.randint(-7, 7) or 2, "den": rng.choice((2, 4, 5))}
             continue
         if r < 0.4:
-            t = rng.choice(TYPES)
+            t = rng.choice(TYPES + ("user2",))      # user2: a second user-defined ring type in the same process
             vals = [[rng.randint(-9, 9) for _ in range(3)] for _ in range(2)]
             den = [[rng.randint(1, 6) for _ in range(3)] for _ in range(2)]
             yield {"k": "exact", "t": t, "vals": vals, "den": den, "s": rng.randint(-7, 7), "sd": rng.randint(1, 5)}
@@ -105,6 +105,8 @@ def _mkval(t, n, d=1):
         return Decimal(n) / Decimal(1 if d in (3, 6) else d) if d in (1, 2, 4, 5) else Decimal(n)
     if t == "float":
         return float(n) / (d if d in (1, 2, 4) else 1)
+    if t == "user2":
+        return Poly2(F(n, d))
     return Poly(F(n, d))
 
 
@@ -287,16 +289,28 @@ def judge(case):
     if k == "exact":
         t = case["t"]
         mu.cell("exact:" + t)
-        d = case["den"] if t in ("Fraction", "user") else [[1, 1, 1], [1, 1, 1]]
+        d = case["den"] if t in ("Fraction", "user", "user2") else [[1, 1, 1], [1, 1, 1]]
         if t == "float":
             d = [[x if x in (1, 2, 4) else 1 for x in row] for row in case["den"]]
         if t == "Decimal":
             d = [[x if x in (1, 2, 4, 5) else 1 for x in row] for row in case["den"]]
         a = [_mkval(t, n, dd) for n, dd in zip(case["vals"][0], d[0])]
         b = [_mkval(t, n, dd) for n, dd in zip(case["vals"][1], d[1])]
-        s = _mkval(t, case["s"], case["sd"] if t in ("Fraction", "user") else 1)
+        s = _mkval(t, case["s"], case["sd"] if t in ("Fraction", "user", "user2") else 1)
         try:
             _run_ops(G, mu, a, b, s, "exact/" + t, typecheck=PYT[t])
+            # a vector built from a caller's list is a value of its own: refilling the list, or editing a second vector
+            # built from the same list, leaves it what it was (and the sums / products taken afterwards are the textbook ones)
+            buf = list(a)
+            v1, v2 = G.Vector(buf), G.Vector(buf)
+            buf[0], buf[2] = b[0], b[2]
+            v2[1] = b[1]
+            if not all(_same(x, y) for x, y in zip(_comps(v1), a)):
+                mu.fail("exact/%s:vector-from-list-follows-the-list" % t, "Vector(list) changed to %r after the caller refilled its list / edited another vector built from it (was %r)" % (_comps(v1), a))
+            else:
+                got = _comps(v1 + G.Vector(*b))
+                if not all(_same(x, y) for x, y in zip(got, _formula("add", a, b, s))):
+                    mu.fail("exact/%s:add:wrong-components" % t, "sum taken after the list was refilled: %r" % (got,))
         except BranchOnValue as e:
             mu.fail("exact:branch-on-value", str(e))
         except Exception as e:
